@@ -39,6 +39,19 @@ pub fn o_hash(input: &[u8], p: &P) -> Out {
 			}
 			return Ok(3);
 		}
+		if p.n[0] == 4 {
+			// the same complete file with a declared raw length of 0 (header never patched): read to its closing
+			// brace all the same, so the hash is the digest of those bytes
+			let mut z = input[..rg.consumed].to_vec();
+			z[11..15].copy_from_slice(&[0, 0, 0, 0]);
+			let mut rd = EnvReader::new(&z, sched_of(p));
+			let g = read_slp_from(&mut rd, false, true).map_err(|f| e(&format!("read-failed:{}", f.key()), format!("reading the file with a declared raw length of 0 failed: {}", f.describe())))?;
+			let want = expected_hash(&z);
+			if g.hash.as_deref() != Some(want.as_str()) {
+				return Err(e("hash-raw-length-0", format!("with a declared raw length of 0 the hash is {:?}, but XXH3-64 of the {} bytes is {}", g.hash, z.len(), want)));
+			}
+			return Ok(4);
+		}
 		let mut rd = EnvReader::new(input, sched_of(p));
 		let g = read_slp_from(&mut rd, p.skip, p.hash);
 		if let (Sched::FailAt(_, std::io::ErrorKind::Interrupted), Err(Fail::Err(_))) = (sched_of(p), &g) {
@@ -62,6 +75,17 @@ pub fn o_hash(input: &[u8], p: &P) -> Out {
 			return Err(e("consumed", format!("the reader consumed only {} bytes; the file ends at {}", rd.handed, rg.consumed)));
 		}
 		if p.n[0] == 1 {
+			// whatever string the game carries as its hash is stored and comes back: the library's own form and
+			// strings a caller put there (another algorithm, no prefix, empty)
+			for foreign in ["sha256:9f86d081884c7d659a2feaa0c55ad015a3bf4f1b2b0b822cd15d6c15b0f00a08", "ad20869043854057", "XXH3:00", "", "xxh3:"] {
+				let mut gf = read_slp(input, false, false).map_err(|f| e(&format!("read-failed:{}", f.key()), f.describe()))?;
+				gf.hash = Some(foreign.to_string());
+				let arch = write_slpp(gf, p.comp).map_err(|f| e(&format!("slpp-write-failed:{}", f.key()), f.describe()))?;
+				let back = read_slpp(&arch, xx(foreign.as_bytes()) % 2 == 0).map_err(|f| e(&format!("slpp-read-failed:{}", f.key()), f.describe()))?;
+				if back.hash.as_deref() != Some(foreign) {
+					return Err(e("hash-carried", format!("a game carrying the hash string {:?} comes back from .slpp with {:?}", foreign, back.hash)));
+				}
+			}
 			let arch = write_slpp(g, p.comp).map_err(|f| e(&format!("slpp-write-failed:{}", f.key()), f.describe()))?;
 			for skip in [false, true] {
 				let g2 = read_slpp(&arch, skip).map_err(|f| e(&format!("slpp-read-failed:{}", f.key()), f.describe()))?;
@@ -141,7 +165,7 @@ pub fn schedules(bytes: &[u8], skip: bool, hash: bool, two_dev: bool) -> Vec<Sch
 
 pub fn run() {
 	let cx = ctx();
-	cx.note("rule", json!("8 replays (all regimes; gecko, doubled end, no metadata, two without any frame) x read schedules of an environment-owned reader: full reads, fixed chunk sizes 1..16/32/../4096, EVERY two-piece split (one short read at every byte offset), every single short read (1,2,3 bytes) at every read-call index, one interrupted read call (ErrorKind::Interrupted, then the call is repeated) at every read-call index, and (thorough) every pair of short reads; x skip_frames {off,on}; plus 1..64 trailing bytes after the closing brace; plus 600 .. 140,000 bytes of unknown events after Game End inside the raw element; plus hash not requested; plus the debug option set (hash off and on); plus call histories (a hashed read of the file cut at every 8th offset, which gives up part-way, then the whole file on the same thread); plus .slpp carry-through for 3 compressions. Oracle: hash == \"xxh3:\" + 16 hex digits of the ONE-SHOT xxh3_64 over the bytes through the closing brace (a different code path from the streaming hasher), identical for all schedules and both skip settings. Every case is non-trivial (a distinct schedule)"));
+	cx.note("rule", json!("8 replays (all regimes; gecko, doubled end, no metadata, two without any frame) x read schedules of an environment-owned reader: full reads, fixed chunk sizes 1..16/32/../4096, EVERY two-piece split (one short read at every byte offset), every single short read (1,2,3 bytes) at every read-call index, one interrupted read call (ErrorKind::Interrupted, then the call is repeated) at every read-call index, and (thorough) every pair of short reads; x skip_frames {off,on}; plus 1..64 trailing bytes after the closing brace; plus 600 .. 140,000 bytes of unknown events after Game End inside the raw element; plus hash not requested; plus the debug option set (hash off and on); plus call histories (a hashed read of the file cut at every 8th offset, which gives up part-way, then the whole file on the same thread); plus .slpp carry-through for 3 compressions (the computed hash and five foreign hash strings); plus the same files with a declared raw length of 0. Oracle: hash == \"xxh3:\" + 16 hex digits of the ONE-SHOT xxh3_64 over the bytes through the closing brace (a different code path from the streaming hasher), identical for all schedules and both skip settings. Every case is non-trivial (a distinct schedule)"));
 	cx.note("exhaustive", json!(true));
 	cx.note("assumptions", json!(["xxhash-rust's one-shot xxh3_64 is the reference (trusted base)", "short reads hand out at least one byte (a zero-length read means EOF)"]));
 	let mut jobs: Vec<(Arc<Vec<u8>>, String, P)> = vec![];
@@ -185,6 +209,15 @@ pub fn run() {
 					set_sched(&mut p, &Sched::Full);
 					p.n[0] = 3;
 					jobs.push((bytes.clone(), format!("{} with the debug option", label), p));
+				}
+			}
+			// declared raw length 0 (needs exactly one Game End: the reader stops at it)
+			if !skip && a.ends == 1 {
+				for sc in [Sched::Full, Sched::Chunk(1), Sched::Chunk(4096)] {
+					let mut p = P { skip: false, hash: true, class: "raw-length-0", ..Default::default() };
+					set_sched(&mut p, &sc);
+					p.n[0] = 4;
+					jobs.push((bytes.clone(), format!("{} with a declared raw length of 0", label), p));
 				}
 			}
 			// .slpp carry-through
